@@ -24,12 +24,17 @@ DECIDED = [
     "R-C12-CLOCK (stored): Redis requeue overwrites payload and parameters with HSET (HSETNX would keep the old clock); R-C12-RETRIEVABLE (names): dead-letter list names carry the message's priority",
     "R-C12-CMP (clock family): every clock reading / timestamp conversion in repid belongs to one family (naive local); R-C12-CLOCK (fresh defaults): timestamps default per object",
     "R-C12-GATE (round 5): category comparisons by equality",
+    "R-C12-CLOCK (round 6): Job._construct_parameters / _construct_routing_key keep nothing on the job (a modified, re-enqueued job sends its current timestamp and ttl)",
+    "R-C12-AWAITED: in the files this property is anchored in, no bare statement calls a coroutine function (the operation would never run)",
 ]
 NOT_DECIDED = ["the instant of the test relative to the expiry on a real clock"]
 ASSUMPTIONS = ["RabbitMQ dead-letters a nacked (requeue=False) message to the queue's DLX routing key (topology checked by C05-POLL)"]
 
 
 def run(ctx: Ctx) -> None:
+    from .shared import every_operation_awaited
+
+    every_operation_awaited(ctx, "R-C12-AWAITED")  # in the files this property is anchored in, no asynchronous operation is created and dropped
     from .shared import category_equality
 
     category_equality(ctx, "R-C12-GATE")
@@ -39,6 +44,9 @@ def run(ctx: Ctx) -> None:
         fresh_defaults(ctx, "R-C12-CLOCK")  # the time-to-live clock starts when the object is built, not when the module was imported
     gate(ctx)
     overdue_siblings(ctx, "R-C12-CMP")
+    from .shared import job_constructs_fresh
+
+    job_constructs_fresh(ctx, "R-C12-CLOCK")
     from .shared import clock_family
 
     clock_family(ctx, "R-C12-CMP")
